@@ -103,9 +103,22 @@ fn feed_key_importers(sink: &mut Sink, input: &[u8]) {
 }
 
 /// a verification run over a link directory seeded with hostile files
-fn hostile_dir_case(sink: &mut Sink, r: &mut Rng, pool: &[KeyInfo]) {
+fn hostile_dir_case(sink: &mut Sink, r: &mut Rng, pool: &[KeyInfo], forced: Option<&str>) {
     let mut g = e2e::Gen { r, pool, insp_counter: 0, force_delegate: false, multi_party: false, co_delegate: false };
     let mut s = g.valid(1, false);
+    // half of the time the scenario itself is faulty in one of the catalogued ways (threshold 0 with no
+    // evidence, missing / unauthorized links, expired or tampered sub-layouts, ...): unusual but
+    // well-typed content
+    if let Some(kind) = forced {
+        let _ = crate::e2e_props::inject_kind("C02", kind, &mut s, g.r, pool);
+    } else if g.r.chance(1, 2) {
+        let prop = *g.r.pick(&["C01", "C02", "C02", "C06", "C07", "C15"]);
+        let _ = crate::e2e_props::inject(prop, &mut s, g.r, pool);
+    } else if g.r.chance(1, 2) {
+        // empty collections where the pipeline expects at least one element
+        let kind = *g.r.pick(&["threshold_zero_nolinks", "threshold_zero_onelink", "no_steps", "no_steps_inner", "caller_empty"]);
+        let _ = crate::e2e_props::inject_kind("C02", kind, &mut s, g.r, pool);
+    }
     // hostile files next to (or instead of) the real evidence
     let step_names: Vec<String> = match &s.block.meta {
         e2e::SMeta::Layout(l) => l.steps.iter().map(|x| x.name.clone()).collect(),
@@ -116,7 +129,9 @@ fn hostile_dir_case(sink: &mut Sink, r: &mut Rng, pool: &[KeyInfo]) {
     e2e::write_dir(pool, &s.dir, &links);
     let r = g.r;
     for st in &step_names {
-        for _ in 0..1 + r.below(3) {
+        // (sometimes a step gets no hostile file, so that later stages are reached with whatever the
+        // injected fault left)
+        for _ in 0..(if forced.is_some() { 0 } else { r.below(4) }) {
             let prefix: String = match r.below(5) {
                 0 => "????????".into(),
                 1 => "\u{e9}\u{e9}\u{e9}\u{e9}".into(), // 8 bytes, 4 chars
@@ -242,7 +257,14 @@ pub fn run(cfg: &Cfg) {
     // ---- hostile link directories
     let nd = if cfg.thorough { 1500 } else { 120 };
     for _ in 0..nd {
-        hostile_dir_case(&mut sink, &mut r, &pool);
+        hostile_dir_case(&mut sink, &mut r, &pool, None);
+    }
+    // ---- degenerate but well-typed scenarios, without hostile files, so that every later stage is
+    //      reached: empty collections where the pipeline expects an element, extreme thresholds
+    for kind in ["threshold_zero_nolinks", "threshold_zero_onelink", "no_steps", "no_steps_inner", "caller_empty", "threshold_raised", "link_removed", "key_not_in_table", "link_wrong_type"] {
+        for _ in 0..(if cfg.thorough { 60 } else { 8 }) {
+            hostile_dir_case(&mut sink, &mut r, &pool, Some(kind));
+        }
     }
     sink.finish(&cfg.out, serde_json::json!({}));
 }
